@@ -158,7 +158,7 @@ func (p *Prog) needLenOfRecv(f *types.Func) int64 {
 	if fi == nil || fi.Decl == nil {
 		return 0
 	}
-	rv := p.recvVar(fi)
+	rv := p.selfVar(fi)
 	if rv == nil || !isByteSliceLike(rv.Type()) {
 		return 0
 	}
@@ -235,7 +235,7 @@ func checkC05(p *Prog, r *Report) {
 		// contracts: slice-receiver accessors (their need is checked at every call site), the
 		// shard heap (its elements satisfy the invariant checked at every Push site), the ring (C20)
 		if fi.Obj != nil {
-			if rv := p.recvVar(fi); rv != nil && isByteSliceLike(rv.Type()) && p.needLenOfRecv(fi.Obj) > 0 {
+			if rv := p.selfVar(fi); rv != nil && isByteSliceLike(rv.Type()) && p.needLenOfRecv(fi.Obj) > 0 {
 				continue
 			}
 			if rn := recvTypeName(fi.Obj); rn == "shardHeap" || rn == "RingBuffer" || rn == "segmentHeap" {
@@ -542,21 +542,42 @@ func checkKeptLength(p *Prog, r *Report, mtuLimit int64) {
 	}
 	// recovered shards: r[2:sz] under len(r) >= 2, 2 <= sz <= len(r)
 	ki := p.FuncByName("(*UDPSession).kcpInput")
-	kfa := p.FactsOf(ki)
 	m := 0
+	type cut struct {
+		fn *FuncInfo
+		se *ast.SliceExpr
+	}
+	var cuts []cut
 	for _, s := range p.CallsTo(p.Method("KCP", "Input")) {
 		if s.Fn != ki {
 			continue
 		}
-		se, ok := ast.Unparen(s.Call.Args[0]).(*ast.SliceExpr)
-		if !ok || se.High == nil {
+		if se, ok := ast.Unparen(s.Call.Args[0]).(*ast.SliceExpr); ok {
+			cuts = append(cuts, cut{ki, se})
+			continue
+		}
+		// the cut moved into a helper: payload, ok := h(r) — the slice expressions h returns
+		if h, _, _ := p.helperBoundArg(ki, s.Call.Args[0]); h != nil {
+			inspectBody(h, func(x ast.Node) bool {
+				if rs, isR := x.(*ast.ReturnStmt); isR && len(rs.Results) > 0 {
+					if se, isS := ast.Unparen(rs.Results[0]).(*ast.SliceExpr); isS {
+						cuts = append(cuts, cut{h, se})
+					}
+				}
+				return true
+			})
+		}
+	}
+	for _, ct := range cuts {
+		se := ct.se
+		if se.High == nil {
 			continue
 		}
 		if _, isConst := p.constVal(se.High); isConst {
 			continue
 		}
 		m++
-		fs := kfa.AtNode(se)
+		fs := p.FactsOf(ct.fn).AtNode(se)
 		base := p.Term(se.X)
 		hi := fs.Resolve(p.Term(se.High))
 		lo := int64(0)
@@ -565,7 +586,7 @@ func checkKeptLength(p *Prog, r *Report, mtuLimit int64) {
 		}
 		ok1 := fs.Holds(le(hi, mk("len", base))) || fs.Holds(le(p.Term(se.High), mk("len", base)))
 		ok2 := fs.Holds(le(tConst(lo), hi)) || fs.Holds(le(tConst(lo), p.Term(se.High)))
-		r.check(ok1 && ok2, "C05.B3", ki.Name, p.Pos(se), "recovered shard "+exprString(se), "lo <= sz <= len(r) on every path", "the size field of a recovered shard is used as a slice bound without lo <= sz <= len(r)")
+		r.check(ok1 && ok2, "C05.B3", ct.fn.Name, p.Pos(se), "recovered shard "+exprString(se), "lo <= sz <= len(r) on every path", "the size field of a recovered shard is used as a slice bound without lo <= sz <= len(r)")
 	}
 	if m == 0 {
 		r.bad("C05.B3", ki.Name, p.Pos(ki.Node), "recovered shard", "no size-checked re-slice of recovered shards found", "")
@@ -1219,7 +1240,7 @@ func checkModularIndices(p *Prog, r *Report) {
 		if !okI {
 			// an explicit counting loop: 0 <= k < dataShards (<= shardSize, the cache length)
 			fs := fa.AtNode(ix)
-			recvT := tVar(p.recvVar(dec))
+			recvT := tVar(p.selfVar(dec))
 			kv, _ := it.Obj.(*types.Var)
 			if (fs.Holds(le(tConst(0), it)) || (it.Op == "var" && p.nonNegCounter(dec, kv))) && (fs.Holds(lt(it, p.F(recvT, "fecDecoder", "dataShards"))) || fs.Holds(lt(it, p.F(recvT, "fecDecoder", "shardSize")))) {
 				okI, why = true, "0 <= k < dataShards <= shardSize"
